@@ -209,6 +209,17 @@ class Engine(EngineBase, AccessMixin, StmtMixin, CallMixin):
         env = dict(p.env)
         for r in c.requires:
             p.assume(self.spec_bool(r, p, sfc))
+        # entry-state heap well-formedness for the fields listed in the sidecars (HEAP_WF_FIELDS): an object that exists
+        # at entry refers, through such a field, only to objects that exist at entry (nothing points at the future)
+        wf_fields = self.specs.consts['HEAP_WF_FIELDS'][1] if 'HEAP_WF_FIELDS' in self.specs.consts else []
+        if wf_fields:
+            n0 = next_ref(p)
+            rr = z3.Int('wf_r')
+            for f in wf_fields:
+                arr = farr(p, f)
+                sel = z3.Select(arr, rr)
+                p.assume(z3.ForAll([rr], z3.Implies(z3.And(rr > 0, rr < n0, val_is(sel, 'ref')),
+                                                    z3.And(val_get(sel, 'ref') > 0, val_get(sel, 'ref') < n0)), patterns=[sel]))
         old = (dict(p.env), dict(p.heap), p.epoch)
         sfc.old = old
         fc.old = old
